@@ -3,7 +3,7 @@
 use crate::conv::{from_val, pid_val, ref_val, to_pid, to_ref};
 use crate::core::{Rng, Tape, World, execute};
 use crate::net::{Chunking, EndCfg};
-use crate::nodeenv::{COOKIE, PEER_NAME, SUT_NAME, install_conforming_peer, start_node};
+use crate::nodeenv::{COOKIE, OTHER_ADDR, OTHER_NAME, PEER_NAME, SUT_NAME, install_conforming_peer, install_conforming_peer_at, start_node};
 use crate::peer::{FLAG_DIST_HDR_ATOM_CACHE, NetCfg, OTP_FLAGS_BASE, ServerConn};
 use crate::runner::{Info, RunOutput, Scenario, Tier, finish};
 use crate::wire::{self, RecvCache, Val};
@@ -57,6 +57,10 @@ struct Plan {
     fault_at: u64,
     #[serde(default)]
     salt: u64,
+    /// node kind: the node is connected to a second, well-behaved node as well, and about a third of the
+    /// operations name processes there; each node must read exactly the frames of the operations meant for it
+    #[serde(default)]
+    other_node: bool,
 }
 
 pub struct C07;
@@ -114,6 +118,7 @@ impl Scenario for C07 {
             fault: if faults { (*r.pick(if node_kind { &["write_error", "peer_close"][..] } else { &["write_error", "peer_close", "peer_stalls"][..] })).to_string() } else { String::new() },
             fault_at: r.below(1500),
             salt: r.next_u64(),
+            other_node: node_kind && r.chance(1, 3),
         };
         serde_json::to_value(p).unwrap()
     }
@@ -266,6 +271,10 @@ async fn scenario(w: &Arc<World>, p: &Plan) {
     let mut p_calm = (*p).clone();
     p_calm.fault = String::new();
     let p_calm = Arc::new(p_calm);
+    // the second node's collector and what it must see
+    let sink_o: Arc<Mutex<Vec<u8>>> = Arc::new(Mutex::new(Vec::new()));
+    let ctl_o: Arc<Mutex<Option<crate::net::PipeCtl>>> = Arc::new(Mutex::new(None));
+    let wants_o: Arc<Mutex<Vec<Want>>> = Arc::new(Mutex::new(Vec::new()));
     {
         let (sink2, p2, ctl2) = (sink.clone(), p.clone(), ctl.clone());
         let (sink_b2, p_b, ctl_b2) = (sink_b.clone(), p_calm.clone(), ctl_b.clone());
@@ -298,6 +307,16 @@ async fn scenario(w: &Arc<World>, p: &Plan) {
             w.violation("HARNESS-setup", format!("connect failed: {}", e));
             return;
         }
+        if p.other_node {
+            let (sink_o2, p_o, ctl_o2) = (sink_o.clone(), p_calm.clone(), ctl_o.clone());
+            install_conforming_peer_at(w, OTHER_ADDR, OTHER_NAME, NetCfg { client: p.client.clone(), server: p.server.clone(), cap: 0 }, peer_flags, move |w, conn, _seen| {
+                Box::pin(collector(conn, sink_o2.clone(), p_o.clone(), w, ctl_o2.clone(), Arc::new(tokio::sync::Notify::new())))
+            });
+            if let Err(e) = node.connect(OTHER_NAME).await {
+                w.violation("HARNESS-setup", format!("connect to the second node failed: {}", e));
+                return;
+            }
+        }
         // in half of the runs the local side of every operation is a process this node really runs
         struct Idle;
         impl edp_node::Process for Idle {
@@ -315,6 +334,7 @@ async fn scenario(w: &Arc<World>, p: &Plan) {
         let mut handles = Vec::new();
         for (ti, ops) in p.tasks.iter().enumerate() {
             let (node, ops, wants, w) = (node.clone(), ops.clone(), wants.clone(), w.clone());
+            let (wants_o, other_node) = (wants_o.clone(), p.other_node);
             let my_pid = spawned[ti].clone();
             handles.push(tokio::spawn(async move {
                 let mut prev_to: Option<Val> = None;
@@ -323,8 +343,17 @@ async fn scenario(w: &Arc<World>, p: &Plan) {
                         tokio::time::sleep(Duration::from_millis(u64::from(op.pause_ms))).await;
                     }
                     let mut to = peer_pid_for(ti, ix, op.seed);
+                    // a process on the second node: the frame belongs on that node's stream and on no other
+                    let to_other = other_node && (op.seed >> 16) % 3 == 0;
+                    if to_other {
+                        if let Val::Pid { node, .. } = &mut to {
+                            *node = OTHER_NAME.to_string();
+                        }
+                        w.stat("probe.c07.operation_for_the_second_node");
+                    }
+                    let rpc_target = if to_other { OTHER_NAME } else { PEER_NAME };
                     // the same remote process as in this task's previous operation (the same pair again)
-                    if let Some(prev) = prev_to.clone().filter(|_| (op.seed >> 8) % 4 == 1) {
+                    if let Some(prev) = prev_to.clone().filter(|_| !other_node && (op.seed >> 8) % 4 == 1) {
                         to = prev;
                         w.stat("probe.c07.same_pair_again");
                     }
@@ -366,7 +395,7 @@ async fn scenario(w: &Arc<World>, p: &Plan) {
                                 Val::atom("$reply_pid"),
                                 Val::tuple(vec![Val::atom("call"), Val::atom("m"), Val::atom("f"), Val::list(vec![Val::int(ti as i128), Val::int(ix as i128)]), Val::atom("user")]),
                             ]));
-                            match node.rpc_call_raw_with_timeout(PEER_NAME, "m", "f", vec![OwnedTerm::Integer(ti as i64), OwnedTerm::Integer(ix as i64)], Duration::from_millis(30)).await {
+                            match node.rpc_call_raw_with_timeout(rpc_target, "m", "f", vec![OwnedTerm::Integer(ti as i64), OwnedTerm::Integer(ix as i64)], Duration::from_millis(30)).await {
                                 Err(edp_node::Error::RpcTimeout(_)) | Ok(_) => Ok(()),
                                 Err(e) => Err(e.to_string()),
                             }
@@ -382,7 +411,7 @@ async fn scenario(w: &Arc<World>, p: &Plan) {
                     want.err = res.err().unwrap_or_default();
                     w.ev(format!("task {} op {} {} -> {}", ti, ix, op.kind, if want.ok { "Ok" } else { &want.err }));
                     w.sig(0x0b ^ (ti as u64) << 8 ^ ix as u64);
-                    wants.lock().unwrap().push(want);
+                    if to_other { wants_o.lock().unwrap().push(want) } else { wants.lock().unwrap().push(want) }
                 }
             }));
         }
@@ -578,8 +607,12 @@ async fn scenario(w: &Arc<World>, p: &Plan) {
         }
     }
     drain(&ctl).await;
+    drain(&ctl_o).await;
     tokio::time::sleep(Duration::from_millis(500)).await;
     evaluate(w, &p, &sink.lock().unwrap(), &wants.lock().unwrap());
+    if p.kind == "node" && p.other_node {
+        evaluate(w, &p_calm, &sink_o.lock().unwrap(), &wants_o.lock().unwrap());
+    }
     let _ = pid_val;
 }
 
